@@ -46,8 +46,14 @@ func headerToMap(header []byte) (map[string]string, error) {
 	offset := 0
 	m := make(map[string]string)
 	for offset < len(header) {
+		if len(header)-offset < 4 {
+			return nil, fmt.Errorf("short buffer reading field length")
+		}
 		fieldlen := binary.LittleEndian.Uint32(header[offset : offset+4])
 		offset += 4
+		if uint64(fieldlen) > uint64(len(header)-offset) {
+			return nil, fmt.Errorf("field length %d exceeds the %d bytes left in the header", fieldlen, len(header)-offset)
+		}
 		index := bytes.IndexByte(header[offset:offset+int(fieldlen)], '=')
 		if index < 0 {
 			return nil, fmt.Errorf("missing kv separator")
@@ -74,6 +80,9 @@ func extractHeaderValue(header []byte, key []byte) ([]byte, error) {
 		fieldlen, offset, err = getUint32(header, offset)
 		if err != nil {
 			return nil, fmt.Errorf("failed to extract field length: %w", err)
+		}
+		if uint64(fieldlen) > uint64(len(header)-offset) {
+			return nil, fmt.Errorf("field length %d exceeds the %d bytes left in the header", fieldlen, len(header)-offset)
 		}
 		field := header[offset : offset+int(fieldlen)]
 		separatorIdx := bytes.Index(field, []byte{'='})
@@ -132,10 +141,7 @@ func processBag(
 		headerlen := binary.LittleEndian.Uint32(buf[:4])
 
 		// header
-		if len(header) < int(headerlen) {
-			header = make([]byte, headerlen*2)
-		}
-		_, err = io.ReadFull(activeReader, header[:headerlen])
+		header, err = readRecordBytes(activeReader, header, headerlen)
 		if err != nil {
 			return err
 		}
@@ -155,20 +161,18 @@ func processBag(
 			return err
 		}
 
+		if len(opcode) != 1 {
+			return fmt.Errorf("invalid op field of length %d", len(opcode))
+		}
+
 		if opcode[0] == OpBagChunk {
 			// data
-			if len(chunkData) < int(datalen) {
-				chunkData = make([]byte, datalen*2)
-			}
-			_, err = io.ReadFull(activeReader, chunkData[:datalen])
+			chunkData, err = readRecordBytes(activeReader, chunkData, datalen)
 			if err != nil {
 				return err
 			}
 		} else {
-			if len(data) < int(datalen) {
-				data = make([]byte, datalen*2)
-			}
-			_, err = io.ReadFull(activeReader, data[:datalen])
+			data, err = readRecordBytes(activeReader, data, datalen)
 			if err != nil {
 				return err
 			}
@@ -219,6 +223,41 @@ func processBag(
 	return nil
 }
 
+// readRecordBytes reads n bytes from r into buf and returns the (possibly reallocated) buffer. The
+// buffer grows as the bytes actually arrive, so that a corrupt length field cannot force an
+// allocation of several gigabytes up front (or overflow when doubled).
+func readRecordBytes(r io.Reader, buf []byte, n uint32) ([]byte, error) {
+	need := int(n)
+	if need <= len(buf) {
+		_, err := io.ReadFull(r, buf[:need])
+		return buf, err
+	}
+	const maxStep = 16 << 20
+	read := 0
+	for read < need {
+		if read == len(buf) {
+			grow := len(buf)
+			if grow > maxStep {
+				grow = maxStep
+			}
+			if grow < 1024 {
+				grow = 1024
+			}
+			buf = append(buf, make([]byte, grow)...)
+		}
+		end := len(buf)
+		if end > need {
+			end = need
+		}
+		m, err := io.ReadFull(r, buf[read:end])
+		read += m
+		if err != nil {
+			return buf, err
+		}
+	}
+	return buf, nil
+}
+
 func channelIDForConnection(connID uint32) (uint16, error) {
 	if connID > math.MaxUint16 {
 		return 0, ErrTooManyConnections
@@ -246,6 +285,9 @@ func Bag2MCAP(w io.Writer, r io.Reader, opts *mcap.WriterOptions, messageCallbac
 			conn, err := extractHeaderValue(header, headerConn)
 			if err != nil {
 				return err
+			}
+			if len(conn) != 4 {
+				return fmt.Errorf("invalid conn field of length %d", len(conn))
 			}
 			connID := binary.LittleEndian.Uint32(conn)
 			topic, err := extractHeaderValue(header, headerTopic)
@@ -295,10 +337,16 @@ func Bag2MCAP(w io.Writer, r io.Reader, opts *mcap.WriterOptions, messageCallbac
 			if err != nil {
 				return err
 			}
+			if len(conn) != 4 {
+				return fmt.Errorf("invalid conn field of length %d", len(conn))
+			}
 			connID := binary.LittleEndian.Uint32(conn)
 			time, err := extractHeaderValue(header, headerTime)
 			if err != nil {
 				return err
+			}
+			if len(time) != 8 {
+				return fmt.Errorf("invalid time field of length %d", len(time))
 			}
 			nsecs := rosTimeToNanoseconds(time)
 			channelID, err := channelIDForConnection(connID)
